@@ -653,8 +653,9 @@ def _pair_source(args, head, N):
             his.append(it[2] + c)
             continue
         return None
-    if len(set(los)) != 1 or len(set(his)) != 1:
-        return None
+    facts = getattr(head, "facts", ())
+    if any(not M.proves_zero(x - los[0], facts) for x in los[1:]) or any(not M.proves_zero(x - his[0], facts) for x in his[1:]):
+        return None          # the two vectors are not read at the same positions (as far as the tests on the way show, e.g. len(d) == len(t))
     return tuple(bases), los[0], his[0]
 
 
@@ -1148,6 +1149,7 @@ def r2_nonempty_vector(ctx):
         return
     ctx.ok("vecwrite summary: `length` starts at 1 and is raised only by a vector longer than 1, and vector arguments are indexed "
            "with a[i] => a zero-length vector argument raises IndexError", fn)
+    _line_buffer(ctx, E, fn)
     # call sites whose vector arguments are slices of symbolic extent.  A site is first looked at in the function that contains the call; when
     # what it passes cannot be understood there (a starred list a caller determines, a stride that is a parameter) the functions that use that
     # function are evaluated instead, with the calls followed - up to the public entry points.
@@ -1309,6 +1311,73 @@ def r2_nonempty_vector(ctx):
         ctx.ok(f"non-empty vector contract bound to {nsites} call sites", BULK + ":1", nontrivial=False)
     else:
         ctx.error(f"non-empty vector contract bound to {nsites} call sites (at least 2 expected)", BULK + ":1")
+
+
+def _line_buffer(ctx, E, fn):
+    """vecwrite may collect the formatted lines in a buffer of fixed size (`buf[n] = line; n += 1`) and write the buffer when it is full.  The buffer
+    may be written whole only where the tests on the way say that the counter equals its size - otherwise only the filled part `buf[:n]` may be
+    written: the slots beyond the counter still hold the lines of the block written before (unless the buffer is made anew or cleared in the
+    loop), and they would be written a second time.  No obligation when no such buffer exists."""
+    fills = [e for e in E.events("store") if e.loops and isinstance(e.d["index"], tuple) and e.d["index"][:1] == ("sym",) and "@L" in e.d["index"][1]]
+    bufs = []
+    for e in fills:
+        if e.d["base"] not in bufs:
+            bufs.append(e.d["base"])
+    for B in bufs:
+        size = None
+        if isinstance(B, Lin) and B.c == 0 and len(B.t) == 1:
+            (at, k), = B.t.items()
+            if isinstance(at, tuple) and at[:1] == ("tuple",) and len(at[1]) == 1 and k.denominator == 1 and k > 0:
+                size = int(k)                     # [x] * K
+        if size is None:
+            continue
+        counters = {e.d["index"][1].split("@")[0] for e in fills if e.d["base"] == B}
+        name = next((e.d["name"] for e in fills if e.d["base"] == B and e.d.get("name")), None)
+        # the buffer made anew / cleared inside the loop: its slots beyond the counter are empty again
+        if any(e.loops and e.d["name"] == name for e in E.events("assign")) or \
+                any(e.loops and e.d.get("recv") == B and e.d["attr"] in ("clear",) for e in E.events("call")):
+            continue
+        v = V()
+        nwhole = 0
+        for e in E.events("call"):
+            if not (e.kind == "call" and is_write(e)):
+                continue
+            a = e.d["args"][0]
+            whole = a == B or (isinstance(a, tuple) and a[:2] == ("op", ".join") and len(a[2]) == 2 and a[2][1] == B)
+            if not whole:
+                continue
+            nwhole += 1
+            v.at(e.node)
+            # the counter at this point: inside the loop that fills the buffer, what was last assigned to the variable the slots are indexed with;
+            # after that loop, the value the loop leaves in it
+            fill_loops = {e_.loops[-1] for e_ in fills if e_.d["base"] == B}
+            cvals = []
+            for nm in sorted(counters):
+                if fill_loops & set(e.loops):
+                    last = [e_.d["value"] for e_ in E.events("assign") if e_.d["name"] == nm and e_.seq < e.seq and set(e_.facts) <= set(e.facts)
+                            and fill_loops & set(e_.loops)][-1:]
+                    cvals += [lin(x) for x in last if isinstance(x, Lin) or (isinstance(x, tuple) and x[:1] == ("sym",))]
+                else:
+                    cvals += [lin(("sym", f"{nm}@L{lid_}'")) for lid_ in sorted(fill_loops)]
+            if not cvals:
+                v.unknown("the counter of filled slots at the write of the whole buffer", e.node)
+                continue
+            full = any((lambda b_: b_[0] == 0 == b_[1])(M.bounds(c_ - size, e.facts)) for c_ in cvals)
+            if full:
+                continue
+            w = None
+            for c_ in cvals:
+                syms_ = M.free_symbols(c_)
+                w = M.find_witness(syms_, e.facts, lambda a_, c_=c_: M.lin_eval(c_, a_) not in (None, size), ranges={s_: (0, size + 2) for s_ in syms_}) if 0 < len(syms_) <= 2 else None
+                if w is not None:
+                    break
+            if w is not None:
+                v.bad({"the whole buffer of": f"{size} slots is written", "when the counter can be": {show(k): x for k, x in w.items()},
+                       "consequence": "the slots beyond the counter hold lines of the block written before: for more lines than the buffer holds they are written twice"}, e.node)
+            else:
+                v.unknown({"the whole buffer is written; counter": [show(x) for x in cvals][:2]}, e.node)
+        if nwhole:
+            v.report(ctx, "vecwrite: a line buffer is written whole only when the counter of filled slots equals its size (else only the filled part)", fn)
 
 
 def _range_ends(v):
@@ -1536,8 +1605,8 @@ def r3_reader_strides(ctx):
     padded = 0
     for e in rets:
         v_ = e.d["value"]
-        if v_ == ("k", None):
-            continue
+        if v_ == ("k", None) or any(pol and isinstance(t, tuple) and t[:2] == ("cmp", "Is") and set(t[2:]) == {("k", None), v_} for t, pol in e.facts):
+            continue            # None: no GRID card in the file
         g.at(e.node)
         shape = _shape2(v_) if not _is_zeros2(v_) else _filled(E, e, v_)
         if shape is None:
